@@ -143,8 +143,30 @@ class Interp:
             if isinstance(st, ast.If):
                 t = fold_test(self.repo, m, st.test, None, env)
                 if t is None:
-                    raise Undecided('cannot fold `{}`'.format(
-                        unparse(st.test)))
+                    # a test on run-time data: both arms are possible. What
+                    # they do is recorded as a ('branch', test, then, else)
+                    # action (not as unconditional actions); values they set
+                    # differently are forgotten.
+                    e1, e2, a1, a2 = dict(env), dict(env), [], []
+                    o1 = self._block(fn, st.body, e1, a1, depth)
+                    o2 = self._block(fn, st.orelse, e2, a2, depth)
+                    if a1 == a2 and o1 == o2 and e1 == e2:
+                        acts.extend(a1)
+                        env.clear()
+                        env.update(e1)
+                    else:
+                        acts.append(('branch', unparse(st.test), a1, a2))
+                        for k in list(env):
+                            if e1.get(k, UNKNOWN) != e2.get(k, UNKNOWN) or \
+                                    k not in e1 or k not in e2:
+                                env.pop(k, None)
+                        if o1 is not None and o1 == o2:
+                            return o1
+                        if o1 is not None or o2 is not None:
+                            raise Undecided(
+                                'arms of `{}` leave differently'.format(
+                                    unparse(st.test)))
+                    continue
                 out = self._block(fn, st.body if t else st.orelse, env, acts,
                                   depth)
                 if out is not None:
@@ -228,6 +250,16 @@ class Interp:
                 if not done:
                     acts.append(('call', unparse(c.func),
                                  [unparse(x) for x in c.args]))
+                continue
+            if isinstance(st, ast.Delete):
+                acts.append(('call', 'del', [unparse(x) for x in st.targets]))
+                continue
+            if isinstance(st, ast.AugAssign):
+                if isinstance(st.target, ast.Name):
+                    env.pop(st.target.id, None)
+                    acts.append(('set', st.target.id, UNKNOWN))
+                else:
+                    acts.append(('call', 'augassign', [unparse(st.target)]))
                 continue
             raise Undecided('unsupported statement ' + type(st).__name__)
         return None
